@@ -165,7 +165,7 @@ def fsqrt(eng, st, a):
         a = to_z3(a)
     r = eng.fresh("sqrt")
     st.events = st.events + (("sqrt_nonneg", a >= 0, "sqrt argument"),)
-    st.assume(z3.And(r >= 0, r * r == a))
+    st.define(z3.And(r >= 0, r * r == a))
     return r
 
 
@@ -417,7 +417,15 @@ def dispatch(eng, st, body, callee, args):
     if T == "mem" and meth in ("drop", "forget"):
         return _o(st, UNIT)
     if Tr == "Deref" and meth == "deref" or Tr == "DerefMut" and meth == "deref_mut" or Tr in ("AsRef", "Borrow", "AsMut", "BorrowMut") and meth in ("as_ref", "borrow", "as_mut", "borrow_mut"):
-        return _o(st, args[0])
+        p0 = args[0]
+        # `&&Vec<T>` / `&&[T]` -> `&[T]`: follow references until the pointee is the container itself
+        while isinstance(p0, Ptr):
+            inner = eng.load_ptr(st, p0)
+            if isinstance(inner, Ptr):
+                p0 = inner
+            else:
+                break
+        return _o(st, p0)
     if Tr == "Clone" and meth == "clone":
         v = eng.deref_all(st, args[0]) if isinstance(args[0], Ptr) else args[0]
         return _o(st, v)
